@@ -443,6 +443,10 @@ func hC09UnaryReq() {
 	cfg.svcProtos = []Protocol{[]Protocol{ProtocolConnect, ProtocolREST}[verifChoose("target", 2)]}
 	fault := verifChoose("fault", 3)
 	cfg.clientComp = fault == 1
+	if fault == 2 && verifChoose("sameCodec", 2) == 1 {
+		// pure re-framing (nothing is decoded): only the announced length can reveal the cut
+		cfg.svcCodecs = []string{CodecJSON}
+	}
 	p := newPipe(cfg)
 	if !p.buildOK {
 		return
